@@ -8,10 +8,23 @@ import (
 	"encoding/json"
 	"fmt"
 	"os"
+	"flag"
+	"io"
 	"sort"
 
+	"k8s.io/klog/v2"
 	"verif/harness/internal/proto"
 )
+
+func init() {
+	// the library logs through klog; keep stderr for the harness itself
+	fs := flag.NewFlagSet("klog", flag.ContinueOnError)
+	klog.InitFlags(fs)
+	_ = fs.Set("logtostderr", "false")
+	_ = fs.Set("alsologtostderr", "false")
+	_ = fs.Set("stderrthreshold", "FATAL")
+	klog.SetOutput(io.Discard)
+}
 
 // A domain generates cases and can re-run one input.
 type domain struct {
